@@ -401,6 +401,14 @@ func stringConsts(fd *ast.FuncDecl, info *types.Info) []string {
 				out = append(out, constant.StringVal(tv.Value))
 			}
 		}
+		// a named constant (or a constant expression) used in the body: its value
+		if e, ok := n.(ast.Expr); ok {
+			if _, isLit := e.(*ast.BasicLit); !isLit {
+				if tv, ok := info.Types[e]; ok && tv.Value != nil && tv.Value.Kind() == constant.String {
+					out = append(out, constant.StringVal(tv.Value))
+				}
+			}
+		}
 		return true
 	})
 	return out
